@@ -19,6 +19,7 @@ func runC14(ctx *core.Ctx) {
 	ctx.Rule("Q1", "one marker predicate: the parser (Parse) and NeedsQuote both call the same marker-search function; the result component on which Parse's loop decides 'a marker was found' is the only component NeedsQuote's verdict may depend on", 1)
 	ctx.Rule("Q2", "Quote/Unquote refuse rather than guess: every nil-error return with non-nil data is dominated by the shape checks (Quote: last byte is newline, utf8.Valid; Unquote: first byte '>' and last byte newline)", 2)
 	ctx.Rule("Q3", "totality of NeedsQuote, Quote, Unquote (bounds engine over all reachable module functions)", 8)
+	ctx.Rule("Q5", "normalisation agreement: Format terminates every body with a newline; NeedsQuote applies the marker search to the body normalised by the same final-newline fix the parser uses, so a last line that is a marker only once terminated is detected", 1)
 	ctx.Rule("Q4", "caller protocol: in txtar-c and testscript's script updater every value stored as a txtar file body is either the result of a successful Quote or a value for which NeedsQuote was consulted and returned false", 2)
 
 	parse := ctx.Need("Q1", "txtar", "Parse")
@@ -109,6 +110,29 @@ func runC14(ctx *core.Ctx) {
 			ctx.OK("Q1", "txtar.NeedsQuote", nq.Pos(), "NeedsQuote decides on %v of %s, the component Parse's loop tests (%v)", names(used), shortFn(search), names(disc))
 		} else {
 			ctx.Bad("Q1", "txtar.NeedsQuote", nq.Pos(), "NeedsQuote decides on result component %v of %s but Parse recognises a marker by component %v: the two disagree whenever those components disagree (e.g. a marker on a final line without newline)", names(used), shortFn(search), names(disc))
+		}
+	}
+
+	// ---- Q5: NeedsQuote must decide on the body as Format will write it
+	if search != nil {
+		var norm *ssa.Function
+		graph(p, search).Instrs(func(i ssa.Instruction) {
+			if c, ok := i.(*ssa.Call); ok {
+				if cal := c.Call.StaticCallee(); cal != nil && core.InModule(cal) && cal.Signature.Params().Len() == 1 && cal.Signature.Results().Len() == 1 &&
+					cal.Signature.Params().At(0).Type().String() == "[]byte" && cal.Signature.Results().At(0).Type().String() == "[]byte" {
+					norm = cal
+				}
+			}
+		})
+		if norm == nil {
+			ctx.Unknown("Q5", "txtar.NeedsQuote#normalised", nq.Pos(), "final-newline normaliser of the marker search not found")
+		} else {
+			for _, c := range nc[search] {
+				arg := c.Call.Args[0]
+				ac, ok := arg.(*ssa.Call)
+				okNorm := ok && ac.Call.StaticCallee() == norm && ac.Call.Args[0] == ssa.Value(nq.Params[0])
+				ctx.Check(okNorm, "Q5", "txtar.NeedsQuote#normalised", c.Pos(), "NeedsQuote searches %s(data), the body with the final newline Format will add: a last line that becomes a marker only once terminated (e.g. \"-- x --\\r\" -> \"-- x --\\r\\n\") must count", shortFn(norm))
+			}
 		}
 	}
 
